@@ -75,7 +75,8 @@ check("C13", "two-sided isolation monitor with an independently constructed cont
       "fresh parse of the same strings and the same operations, which by construction shares nothing. Behavioural verdict only.",
       TRUST_REL, "DESIGN.md §5 C13")
 check("C14", "Go race detector (-race build) over barrier-released goroutine rounds on fresh shared objects + result equality with sequential twin + fingerprint hooks",
-      "The one compiler sanitizer that applies: rounds of 2-16 goroutines use shared parsers, profiles and a freshly parsed shared base URL (getters, Clone, resolution); race reports are counted "
+      "The one compiler sanitizer that applies: 64 (quick) / 256 (thorough) short-lived processes, each starting with cold rounds (first use of the library happens concurrently; fingerprints taken before), then rounds of 2-16 "
+      "goroutines that use shared parsers, profiles and a freshly parsed shared base URL (getters, Clone, resolution, mutation of the results they own); race reports are counted "
       "from the log and de-duplicated by stack; every concurrent result must equal the sequential one; table/parser/profile fingerprints and the base snapshot must be unchanged. The evidence lists "
       "which operation pairs were actually in flight together.",
       "Trusted base: the Go race detector (sees only races on executed paths within its shadow window) and toolchain. Counting hooks are disabled in this build (plain variables by design).", "DESIGN.md §5 C14")
